@@ -83,7 +83,7 @@ def run(ctx):
                  ("get",), ("long", 4, 0)]
     else:
         runs += [("strings", 3, 20000), ("numbers", 6)]
-        runs += [("muts", 150, s) for s in range(8)]
+        runs += [("muts", 100, s) for s in range(6)]
         runs += [("nest", 1)]
         runs += [("trees", 1500, s) for s in range(4)]
         runs += [("get",)]
